@@ -59,6 +59,7 @@ type BatchSc struct {
 	WaitMs   int          `json:"wait_ms,omitempty"`
 	HasFb    bool         `json:"has_fb,omitempty"`
 	ExecAny  bool         `json:"exec_any,omitempty"`
+	ErrBoth  bool         `json:"err_both,omitempty"` // Result-style exec reports failures as (NewErrorResult(err), err)
 	CfgBits  int          `json:"cfg_bits,omitempty"` // bit i set: setting i given as constructor option, else builder method
 	Items    []ItemScript `json:"items"`
 	PrepErr  int          `json:"prep_err,omitempty"`
@@ -534,6 +535,9 @@ func (x *batchExec) build() flyt.Node {
 		b.WithExecFunc(func(ctx context.Context, r flyt.Result) (flyt.Result, error) {
 			ret, err, resErr := x.execCb(ctx, r)
 			if err != nil {
+				if sc.ErrBoth {
+					return flyt.NewErrorResult(err), err
+				}
 				return flyt.Result{}, err
 			}
 			if resErr != nil {
